@@ -1,6 +1,6 @@
 #!/bin/sh
 # Run once after a fresh restore, offline: build the simulator against /repo and prove determinism.
-cd /verif || exit 2
+cd "$(dirname "$0")" || exit 2
 ./check build || exit 2
 ./check selftest quick || exit 2
 exit 0
